@@ -7,6 +7,194 @@ namespace Wrgl.Drv
 
 def isPrefixPk (pk : List Nat) : Bool := !pk.isEmpty && pk == List.range pk.length
 
+
+/-! ### merge over a commit history (`wrgl merge BRANCH COMMIT` run on a repository)
+
+A reference of what every branch must hold after each step, from the property alone: the commit graph
+is a list of nodes (parents, table); `merge BRANCH COMMIT` with heads `a` and `b`
+
+* `b` reachable from `a` (including `a = b`): the commit merged in is the shared base (or both are the
+  same commit), so merge(base; X, base) = X resp. merge(base; X, X) = X: BRANCH keeps `a`'s table;
+* `a` reachable from `b`: BRANCH itself is the base, merge(base; base, X) = X: BRANCH gets `b`'s table;
+* otherwise, with a unique nearest common ancestor `c`: the by-name three-way resolution of
+  (table c; table a, table b), judged when it is free of conflicts.
+
+No other branch changes. -/
+
+structure HTab where
+  cols : Row
+  rows : List Row
+  deriving Inhabited
+
+structure HNode where
+  parents : List Nat
+  tab : HTab
+  deriving Inhabited
+
+structure HSt where
+  nodes : Array HNode := #[]
+  heads : List (String × Nat) := []
+
+def HSt.head? (s : HSt) (b : String) : Option Nat := (s.heads.find? (fun h => h.1 == b)).map (·.2)
+def HSt.setHead (s : HSt) (b : String) (n : Nat) : HSt :=
+  { s with heads := s.heads.filter (fun h => h.1 != b) ++ [(b, n)] }
+def HSt.push (s : HSt) (b : String) (parents : List Nat) (t : HTab) : HSt :=
+  ({ s with nodes := s.nodes.push { parents := parents, tab := t } }).setHead b s.nodes.size
+def HSt.tabOf (s : HSt) (n : Nat) : HTab := ((s.nodes[n]?).map (·.tab)).getD default
+
+/-- the commits reachable from `n` through parent links, `n` included -/
+def hAncestors (nodes : Array HNode) (n : Nat) : List Nat :=
+  let rec go : Nat → List Nat → List Nat → List Nat
+    | 0, _, seen => seen
+    | fuel + 1, frontier, seen =>
+      let next := ((frontier.flatMap (fun i => ((nodes[i]?).map (·.parents)).getD [])).filter (fun p => !seen.contains p)).eraseDups
+      if next.isEmpty then seen else go fuel next (seen ++ next)
+  go nodes.size [n] [n]
+
+/-- the common ancestors of `a` and `b` none of whose descendants is a common ancestor too -/
+def hNearestCommon (nodes : Array HNode) (a b : Nat) : List Nat :=
+  let ancB := hAncestors nodes b
+  let common := (hAncestors nodes a).filter ancB.contains
+  common.filter (fun c => !common.any (fun d => d != c && (hAncestors nodes d).contains c))
+
+def HTab.byName (t : HTab) : List (List (Bytes × Bytes)) :=
+  t.rows.map (fun r => (t.cols.zip r).mergeSort (fun a b => bytesCmp a.1 b.1 != .gt))
+
+def sameColumnNames (a b : HTab) : Bool :=
+  a.cols.mergeSort (fun x y => bytesCmp x y != .gt) == b.cols.mergeSort (fun x y => bytesCmp x y != .gt)
+
+/-- the same rows, cell for cell under the column names, in any row and column order -/
+def sameRowsByName (a b : HTab) : Bool :=
+  let x := a.byName
+  let y := b.byName
+  x.length == y.length && x.all y.contains && y.all x.contains
+
+/-- the by-name three-way resolution of whole tables (`resolveRecCols` per key): `none` when some key
+    is in conflict, else the merged table under the merged columns minus those a branch removed -/
+def threeWayByName (pkNames : Row) (base : HTab) (brs : List HTab) : Option HTab :=
+  let keyIn := fun (cols : Row) (r : Row) => pkNames.map (fun n => (((cols.zip r).find? (fun p => p.1 == n)).map (·.2)).getD [])
+  let bcols := brs.map (·.cols)
+  let keys := ((base :: brs).flatMap (fun t => t.rows.map (keyIn t.cols))).eraseDups
+  let names := mergedNames base.cols bcols
+  let finalNames := names.filter (fun n => !(base.cols.contains n && bcols.any (fun c => !c.contains n)))
+  let res := keys.map (fun k =>
+    let ob := base.rows.find? (fun r => keyIn base.cols r == k)
+    let os := brs.map (fun t => t.rows.find? (fun r => keyIn t.cols r == k))
+    -- a key present and identical in the base and all branches never reaches the resolver
+    let untouched := ob.isSome && os.all (fun o => o == ob)
+    (ob, if untouched then none else some (resolveRecCols base.cols bcols ob os)))
+  let conflictFree := res.all (fun (_, r) => match r with
+    | some (.conflict _ _) => false
+    | _ => true)
+  if !conflictFree then none else
+  some { cols := finalNames, rows := res.filterMap (fun (ob, r) => match r with
+    | none => ob.map (rearrange finalNames base.cols)      -- untouched by every branch
+    | some (.resolved row) => some (rearrange finalNames names row)
+    | some .removed => none                                 -- removed by a branch, modified by none
+    | some (.conflict _ _) => none) }
+
+/-- what one `merge BRANCH COMMIT` may do, relative to one shared base -/
+inductive HOutcome where
+  | holds (t : HTab) (after : HSt) (kind clause : String)   -- the command succeeds and BRANCH holds `t`
+  | refused (kind clause : String)                          -- the command fails and nothing changes
+
+/-- the outcome the merge laws demand of `merge BRANCH COMMIT` (heads `a`, `b`) relative to the shared
+    base `c`; `none`: the three-way resolution has a conflict (the merge tool would open) -/
+def hOutcomeFor (pkNames : Row) (s : HSt) (branch : String) (a b c : Nat) (ff : String) : Option HOutcome :=
+  if c == b then
+    -- merge(base; X, base) = X, merge(base; X, X) = X
+    some (.holds (s.tabOf a) (if a != b && ff == "no-ff" then s.push branch [a, b] (s.tabOf a) else s)
+      (if a == b then "same-commit" else "other-contained") (if a == b then "merge-of-X-and-X-is-X" else "merge-of-X-and-base-is-X"))
+  else if c == a then
+    -- merge(base; base, X) = X
+    some (.holds (s.tabOf b) (if ff == "no-ff" then s.push branch [a, b] (s.tabOf b) else s.setHead branch b)
+      "branch-contained" "merge-of-X-and-base-is-X")
+  else if ff == "ff-only" then some (.refused "rejected" "rejected-merge-changes-nothing")
+  else (threeWayByName pkNames (s.tabOf c) [s.tabOf a, s.tabOf b]).map (fun t =>
+    .holds t (s.push branch [a, b] t) "three-way" "non-conflicting-changes-kept-and-untouched-rows-unchanged")
+
+def asHTab (j : Json) : Except String HTab := do
+  return { cols := ← asRow (fldD j "columns" (Json.arr #[])), rows := ← asRows (fldD j "rows" (Json.arr #[])) }
+
+def sameTable (a b : HTab) : Bool := sameColumnNames a b && sameRowsByName a b
+
+/-- does the observed step (status, table of BRANCH afterwards) show this outcome -/
+def hShows (s : HSt) (a : Nat) (failed : Bool) (exported : Option HTab) : HOutcome → Bool
+  | .holds t _ _ _ => !failed && (exported.map (sameTable t)).getD false
+  | .refused _ _ => failed && (exported.map (sameTable (s.tabOf a))).getD false
+
+/-- replays the steps; returns the violated clauses and a trace of what each merge step was.
+
+    The base the laws refer to is the nearest common ancestor. WHICH shared commit the command takes as
+    the base is the business of C11 (known finding C11-seek-not-input: a commit contained in BRANCH is
+    not always recognised as the base, an older shared commit is taken instead); a step that shows the
+    outcome demanded relative to another shared commit is therefore followed, not reported (the trace
+    says `older-base`). Relative to whatever shared base, the data must be what the merge rule says. -/
+def hReplay (pkNames : Row) (tables : Array HTab) : List (Json × Json) → HSt → List String → List String → Except String (List String × List String)
+  | [], _, viol, trace => return (viol, trace)
+  | (st, ir) :: rest, s, viol, trace => do
+    let op ← strFld st "op"
+    let branch ← strFld st "branch"
+    match op with
+    | "commit" =>
+      let t := (tables[← natFld st "table"]?).getD default
+      hReplay pkNames tables rest (s.push branch ((s.head? branch).toList) t) viol trace
+    | "branch" =>
+      match s.head? (← strFld st "from") with
+      | some n => hReplay pkNames tables rest (s.setHead branch n) viol trace
+      | none => throw "branch from an unknown branch"
+    | "merge" =>
+      let ff := (fldD st "ff" (Json.str "")).getStr?.toOption.getD ""
+      match s.head? branch, s.head? (← strFld st "from") with
+      | some a, some b =>
+        let failed := (fldD ir "res" Json.null).getStr?.toOption.getD "?" != "ok"
+        let heads := fldD ir "heads" (Json.mkObj [])
+        let exported ← match heads.getObjVal? branch with
+          | .ok hj => pure (some (← asHTab hj))
+          | .error _ => pure none
+        -- branches that are not merged into keep their tables
+        let mut others : List String := []
+        for (name, n) in s.heads do
+          if name != branch then
+            match heads.getObjVal? name with
+            | .ok hj => if !sameTable (← asHTab hj) (s.tabOf n) then others := others ++ ["branches-not-merged-into-stay-unchanged"]
+            | .error _ => others := others ++ ["every-branch-exported"]
+        if exported.isNone then others := others ++ ["every-branch-exported"]
+        if !others.isEmpty then return (viol ++ others, trace ++ ["other-branch!"])
+        match hNearestCommon s.nodes a b with
+        | [c] =>
+          match hOutcomeFor pkNames s branch a b c ff with
+          | none => return (viol ++ others, trace ++ ["not-judged"])   -- the rest of the history depends on it
+          | some want =>
+            let (s', kind, clause) : HSt × String × String := match want with
+              | .holds _ after k cl => (after, k, cl)
+              | .refused k cl => (s, k, cl)
+            if hShows s a failed exported want then
+              hReplay pkNames tables rest s' (viol ++ others) (trace ++ [kind])
+            else
+              let ancB := hAncestors s.nodes b
+              let older := ((hAncestors s.nodes a).filter (fun d => d != c && ancB.contains d)).filterMap (fun d =>
+                match hOutcomeFor pkNames s branch a b d ff with
+                | some o => some o
+                | none => some (.refused "conflict" "conflict-reported"))
+              match older.find? (hShows s a failed exported) with
+              | some (.holds _ after k _) => hReplay pkNames tables rest after (viol ++ others) (trace ++ ["older-base:" ++ k])
+              | some (.refused k _) => hReplay pkNames tables rest s (viol ++ others) (trace ++ ["older-base:" ++ k])
+              | none =>
+                let v : List String := match want with
+                  | .holds t _ _ _ =>
+                    if failed then ["unexpected-error"]
+                    else match exported with
+                      | some e => (if sameColumnNames e t then [] else ["columns-under-their-own-names"]) ++
+                                  (if sameRowsByName e t then [] else [clause])
+                      | none => []
+                  | .refused _ _ => [clause]
+                -- what the later steps must show depends on this one: the replay ends here
+                return (viol ++ others ++ v, trace ++ [kind ++ "!"])
+        | _ => return (viol ++ others, trace ++ ["not-judged"])
+      | _, _ => throw "merge of an unknown branch"
+    | _ => throw s!"unknown step {op}"
+
 def handleC05 (op : String) (input impl : Json) : Except String Json := do
   match op with
   | "merge" =>
@@ -128,6 +316,19 @@ def handleC05 (op : String) (input impl : Json) : Except String Json := do
        else ["non-conflicting-changes-kept-and-untouched-rows-unchanged"])
     let _ := sortR
     return reply mj viol.isEmpty viol
+  | "merge-cli-hist" =>
+    -- a history of `wrgl commit` / `wrgl branch create` / `wrgl merge` steps; after every merge step the
+    -- table of every branch was read back: each must hold what the merge laws say (see `hOutcomeFor`)
+    let pkNames ← asRow (fldD input "pkNames" (Json.arr #[]))
+    let tables ← (← asArr (fldD input "tables" (Json.arr #[]))).mapM asHTab
+    let steps ← asArr (fldD input "steps" (Json.arr #[]))
+    if resClass impl == "panic" then return reply Json.null false ["no-panic"]
+    if resClass impl != "ok" then return reply Json.null false ["unexpected-error"]
+    let isteps ← asArr (fldD (fldD impl "val" Json.null) "steps" (Json.arr #[]))
+    if isteps.length != steps.length then return reply Json.null false ["every-step-reported"]
+    let (viol, trace) ← hReplay pkNames tables.toArray (steps.zip isteps) {} [] []
+    let viol := viol.eraseDups
+    return reply (Json.mkObj [("merges", jStrs trace)]) viol.isEmpty viol
   | _ => throw s!"unknown op {op}"
 
 end Wrgl.Drv
